@@ -24,6 +24,7 @@ func init() {
 			{ID: "C15.R5", Floor: 2, Run: c15r5, Text: "element-wise reset loops in the reset chain range over the whole slice they clear (index from 0, bound len of the same slice)"},
 			{ID: "C15.R6", Floor: 8, Run: c03r3, Text: "table selection by activity, not by length (= C03.R3): after Reset tables exist but are empty; filters registered then must still receive them"},
 			{ID: "C15.R7", Floor: 6, Run: resetMustWrite, Text: "reset on every path: each run-state field that Reset resets (R1) is written on every path of Reset to a normal return (must-flow over Reset; inside callees the write is may)"},
+			{ID: "C15.R8", Floor: 1, Run: resourceTableSizedOnce, Text: "the resource table is sized once: Resources.resources is assigned only by the constructor; reset clears elements in place"},
 		},
 	})
 }
